@@ -6,6 +6,8 @@ from . import parts
 def run(tier):
     ck = common.Check('C03', tier)
     res = parts.run_parts(ck, tier, ir_parts=('ir_lifetime', 'ir_size'))
+    from .. import irrules
+    irrules.run_canaries(ck, {'ir_size': [('R06.3', 'canary_size_first')]})
     r = res.get('ir_lifetime', [])
     ck.floor('construct/destroy wrappers', sum(x['res']['wrappers'] for x in r), 40 if tier == 'quick' else 400)
     ck.floor('releases of an entry buffer examined', sum(x['res']['releases'] for x in r), 2000 if tier == 'quick' else 20000)
